@@ -176,7 +176,10 @@ def _tell_with_warning(
     try:
         # Sampler defined trial post-processing.
         study = pruners._filter_study(study, frozen_trial)
-        study.sampler.after_trial(study, frozen_trial, state, values)
+        # The sampler gets its own list: the one below is what has been validated and is stored.
+        study.sampler.after_trial(
+            study, frozen_trial, state, None if values is None else list(values)
+        )
     finally:
         study._storage.set_trial_state_values(frozen_trial._trial_id, state, values)
 
